@@ -13,6 +13,7 @@ from rv.props import aoef_common as AC
 
 ANCHORS = ("io/aoef", "io/saver.py", "io/loader.py")
 THOROUGH_SHARDS = 8
+AMBIENT_TESTS = ["tests/test_io"]
 _spec = None
 
 
@@ -132,3 +133,8 @@ def replay(ctx, w):
     AC.HOOKS[:] = [_hook]
     s = w["spec"]
     judge(ctx, s["collection"], s["graph_seed"], s["knobs"], s["a"], s["b"], s["p_outside"])
+
+
+def ambient_install():
+    AC.install()
+    AC.HOOKS[:] = [_hook]
